@@ -146,6 +146,10 @@ def sparse_selftest(seed=0, rounds=12):
     for nm, conv in (("csr.tocoo()", lambda M: M.tocoo()), ("csr.tocoo(copy=True)", lambda M: M.tocoo(copy=True)), ("csr.tocsr()", lambda M: M.tocsr()),
                      ("csr.copy()", lambda M: M.copy()), ("2*csr", lambda M: 2.0 * M)):
         assert visible(lambda: sp.csr_array(D2), conv) == visible(lambda: M.csr_array(D2), conv), ("aliasing", nm); n_cmp += 1
+    assert visible(lambda: sp.coo_array(D2), lambda S: sp.coo_array(S)) == visible(lambda: M.coo_array(D2), lambda S: M.coo_array(S)), ("aliasing", "coo_array(coo)"); n_cmp += 1
+    assert visible(lambda: sp.csr_array(D2), lambda S: sp.coo_array(S)) == visible(lambda: M.csr_array(D2), lambda S: M.coo_array(S)), ("aliasing", "coo_array(csr)"); n_cmp += 1
+    assert visible(lambda: sp.coo_array(D2), lambda S: sp.csr_array(S)) == visible(lambda: M.coo_array(D2), lambda S: M.csr_array(S)), ("aliasing", "csr_array(coo)"); n_cmp += 1
+    assert visible(lambda: sp.csr_array(D2), lambda S: sp.csr_array(S)) == visible(lambda: M.csr_array(D2), lambda S: M.csr_array(S)), ("aliasing", "csr_array(csr)"); n_cmp += 1
     dr, dm = np.array([1., 2.]), np.array([1., 2.], dtype=object)
     cr, cm = sp.coo_array((dr, ([0, 1], [1, 0])), shape=(2, 2)), M.coo_array((dm, ([0, 1], [1, 0])), shape=(2, 2))
     cr.data *= 3.0; cm.data *= 3.0
